@@ -24,16 +24,31 @@ def call(path, *a):
     return ("call", path, None) + a
 
 
-def expect_some(item, this=None, state=None):
+def expect_some(item, this=None, state=None, width_at=None):
     def f(path, case):
         v = table.strip_gargs(path.value)
         if not (v[0] == "agg" and v[1].endswith("Some#1") and v[2][0] == "agg" and v[2][1] == "tuple"):
             return "expected Some((piece, iter)), got %s" % show(v)
         it, st = v[2][2], v[2][3]
-        if _n(it) != _n(item):
-            return "yields %s, expected %s" % (show(it), show(item))
         nt, ns = sym.mk_field(st, 0), sym.mk_field(st, 1)
-        if _n(nt) != _n(this if this is not None else THIS):
+        want_t = this if this is not None else THIS
+        if width_at is not None and (_n(it) != _n(item) or _n(nt) != _n(want_t)):
+            # the first char's width read off its lead byte instead of the boundary scan (see C07: exact on the lead bytes admitted)
+            from .c07 import _subst, _width_justified
+            for w in (1, 2, 3, 4):
+                if _n(_subst(item, width_at, Int(w))) == _n(it) and _n(_subst(want_t, width_at, Int(w))) == _n(nt):
+                    why = _width_justified(path, THIS, w)
+                    if why is not None:
+                        return "takes the first char to be %d byte(s) long %s" % (w, why)
+                    item_, want_t = it, nt
+                    break
+            else:
+                item_ = item
+        else:
+            item_ = item
+        if _n(it) != _n(item_):
+            return "yields %s, expected %s" % (show(it), show(item))
+        if _n(nt) != _n(want_t):
             return "new remainder is %s, expected %s" % (show(nt), show(this if this is not None else THIS))
         if state is not None:
             if not state(ns):
@@ -158,7 +173,7 @@ def split_tables(ctx, prog):
             Row([("is", STATE, 0), ("is", f, 1)], expect_some(item, rest), name="Normal, delimiter found"),
             Row([("is", STATE, 0), ("is", f, 0)], expect_some(THIS, EMPTY, fin), name="Normal, no delimiter: last piece"),
             Row([("is", STATE, 1), ("is", ES, 0)], expect_some(EMPTY, None, is_state(SP, "Empty", "Continue")), name="Empty(Start)"),
-            Row([("is", STATE, 1), ("is", ES, 1), ne(("len", THIS), Int(0))], expect_some(ch, rem), name="Empty(Continue), chars left"),
+            Row([("is", STATE, 1), ("is", ES, 1), ne(("len", THIS), Int(0))], expect_some(ch, rem, width_at=at if fwd else None), name="Empty(Continue), chars left"),
             Row([("is", STATE, 1), ("is", ES, 1), eq(("len", THIS), Int(0))], expect_some(ch, rem, fin), name="Empty(Continue), exhausted"),
         ]
         _decide(ctx, prog, "Split::" + m, b, paths, rows, {STATE: [0, 1, 2], ES: [0, 1], f: [0, 1]},
@@ -219,7 +234,7 @@ def terminator_tables(ctx, prog):
             Row([("is", STATE, 1), ("is", ES, 1), eq0], none, name="Empty(Continue), remainder empty: end"),
             Row([("is", STATE, 0), ne0, ("is", f, 1)], found, name="Normal, delimiter found"),
             Row([("is", STATE, 0), ne0, ("is", f, 0)], last, name="Normal, no delimiter: whole remainder"),
-            Row([("is", STATE, 1), ("is", ES, 1), ne0], expect_some(ch, rem), name="Empty(Continue), chars left"),
+            Row([("is", STATE, 1), ("is", ES, 1), ne0], expect_some(ch, rem, width_at=at if fwd else None), name="Empty(Continue), chars left"),
         ]
         def normal_nonempty(case, LD=LD):
             # constructor invariant (DLG rows): the Normal state holds a non-empty delimiter
